@@ -114,6 +114,14 @@ func (em *emitter) ti(n ast.Node) *typeInfo {
 	return nil
 }
 
+// isPackageName reports whether ident, operand of a selector, is the name of
+// a package. It is not if a variable with the same name shadows the package:
+// the type checker records a type info only for the identifiers of values.
+func (em *emitter) isPackageName(ident *ast.Identifier) bool {
+	ti := em.ti(ident)
+	return ti == nil || ti.IsPackage()
+}
+
 // typ returns the reflect.Type associated to the given expression.
 func (em *emitter) typ(expr ast.Expression) reflect.Type {
 	return em.ti(expr).Type
@@ -673,7 +681,7 @@ func (em *emitter) emitCallNode(call *ast.Call, goStmt bool, deferStmt bool, toF
 
 	// Scriggo-defined function (selector).
 	if selector, ok := call.Func.(*ast.Selector); ok {
-		if ident, ok := selector.Expr.(*ast.Identifier); ok {
+		if ident, ok := selector.Expr.(*ast.Identifier); ok && em.isPackageName(ident) {
 			if fun, ok := em.fnStore.availableScriggoFn(em.pkg, ident.Name+"."+selector.Ident); ok {
 				stackShift := em.fb.currentStackShift()
 				regs, types := em.prepareCallParameters(fun.Type, call.Args, callOptions{callHasDots: call.IsVariadic})
